@@ -673,9 +673,9 @@ def judge1(cs, text, L, res, part, rng):
     fpa, dpa = act["set_fp"], act["set_dp"]
     fpe, dpe = eff(fpa, DEFAULT_FP), eff(dpa, DEFAULT_DP)
     zp = min(fpe, dpe)
-    for k in ("v2_fp", "v2_dp", "vc_fp", "vc_dp"):
+    for k in ("vc_fp", "vc_dp"):
         e = ev(k)
-        if e is None:
+        if e is None or "skipped" in e:
             return None
         if e.get("ret") != 0:
             bad("setter-refused:max", "precision setter failed: %s" % e)
@@ -731,9 +731,17 @@ def judge1(cs, text, L, res, part, rng):
         bad("load-failed:" + pcl, "vnacal_load of the file just saved "
             "failed: %s\n%s" % (ld, ta[:1500].decode("latin-1")))
         return True
+    for k in ("v2_fp", "v2_dp"):
+        e = ev(k)
+        if e is None or "skipped" in e:
+            return None
+        if e.get("ret") != 0:
+            bad("setter-refused:max", "precision setter failed on the loaded "
+                "object: %s" % e)
+            return True
     for k in ("save_b", "save_c"):
         e = ev(k)
-        if e is None:
+        if e is None or "skipped" in e:
             return None
         if e.get("ret") != 0:
             bad("save-failed:max", "vnacal_save at VNACAL_MAX_PRECISION "
